@@ -299,10 +299,11 @@ TextbookUnit(op) ==
     [] OTHER -> Undef
 
 RECURSIVE FoldOp(_, _)
-\* fold of a non-empty sequence of scalars (left to right)
-FoldOp(op, s) ==
+\* fold of a non-empty sequence of scalars with an associative op
+FoldOp(op, s) ==   \* balanced, so that the recursion depth is logarithmic
   IF Len(s) = 1 THEN s[1]
-  ELSE Apply2(op, FoldOp(op, SubSeq(s, 1, Len(s) - 1)), s[Len(s)])
+  ELSE LET m == Len(s) \div 2 IN
+       Apply2(op, FoldOp(op, SubSeq(s, 1, m)), FoldOp(op, SubSeq(s, m + 1, Len(s))))
 
 FoldOpU(op, s) == IF s = <<>> THEN TextbookUnit(op) ELSE FoldOp(op, s)
 
